@@ -534,7 +534,7 @@ def handle (st : DState) (line : String) : String × DState :=
        | .ok (o, evs, _) => ("res=ok ev=" ++ listOrDash evs ++ " st=" ++ stateStr o, { st with w := { st.w with orb := o } })
        | .err t =>
          -- whose refusal it is: the module's own (registered under its codespace) or the bridge module's, handed through
-         let ecs := if t.startsWith "cctp:" then "ext" else "orbiter"
+         let ecs := if t.startsWith "cctp:" then "cctp" else if t == "msg:no-cctp-controller" then "undefined" else "orbiter"
          ("res=err ev=- st=" ++ stateStr st.w.orb ++ " ecs=" ++ ecs ++ " tag=" ++ t, st)
        | .panic s => ("res=panic ev=- st=" ++ stateStr st.w.orb ++ " tag=" ++ s, st))
   | ["escrowfund", ch, d, n] =>
